@@ -268,6 +268,10 @@ func readOperationPack(def Definition, repo repository.RepoData, resolvers entit
 		}
 	}
 
+	if author == nil {
+		return nil, fmt.Errorf("missing %s entry in the operation pack tree", opsEntryName)
+	}
+
 	// Verify signature if we expect one
 	keys := author.ValidKeysAtTime(fmt.Sprintf(editClockPattern, def.Namespace), editTime)
 	if len(keys) > 0 {
